@@ -455,8 +455,33 @@ class CFG:
             if d0['p']['pr']:
                 return None
             rv = d0['rv']
-            if rv['k'] == 'agg' and rv.get('ak') == 'adt':
-                return self._discr_of(rv['adt'], rv['variant'], rv['vi'])
+            for _hop in range(3):
+                if rv['k'] == 'agg' and rv.get('ak') == 'adt':
+                    return self._discr_of(rv['adt'], rv['variant'], rv['vi'])
+                if rv['k'] == 'use' and 'k' in rv['x'] and 'scalar' in rv['x']['k'] and rv['x']['k'].get('ty', '').split('<')[0] in self.adts:
+                    # a field-less enum constant (`CounterId::A` handed to an inlined helper)
+                    a = self.adts[rv['x']['k']['ty'].split('<')[0]]
+                    if a.get('kind') == 'enum' and all(not v['fields'] for v in a['variants']):
+                        return rv['x']['k']['scalar']['bits']
+                    return None
+                if rv['k'] == 'use' and ('m' in rv['x'] or 'c' in rv['x']):
+                    src = rv['x'].get('m') or rv['x'].get('c')
+                    if src['pr']:
+                        return None
+                    sdefs = []
+                    for b2 in self.blocks:
+                        if b2['cleanup']:
+                            continue
+                        for s2 in b2['s']:
+                            if 'p' in s2 and s2['p']['l'] == src['l']:
+                                sdefs.append(s2)
+                        if b2['t']['k'] == 'call' and b2['t']['d']['l'] == src['l']:
+                            sdefs.append(None)
+                    if len(sdefs) != 1 or sdefs[0] is None or sdefs[0]['p']['pr'] or src['l'] <= getattr(self.fn, 'argc', 0):
+                        return None
+                    rv = sdefs[0]['rv']
+                    continue
+                return None
             return None
         # call: Try::branch(arg) with arg a just-built aggregate
         f = d0['f']
